@@ -468,7 +468,11 @@ def _foundations(rep: Report, prog: Program) -> None:
     from .c04 import scheduled_action_fields
 
     scheduled_action_fields(rep, "R5.8", prog, only=("next_sleep_s",))
-    rep.floor("R5.8", 2)
+    from .c11 import check_runner_fields
+    from .common import RuleView as _RV
+
+    check_runner_fields(_RV(rep, "R5.8", only=("R11.5",)), prog)  # ... and in execute mode: outcome.next_sleep_s (= C11 R11.5)
+    rep.floor("R5.8", 6)
 
     from .common import forwarding_slice
 
@@ -482,6 +486,12 @@ def _foundations(rep: Report, prog: Program) -> None:
     rep.instance("R5.11", "_handle_failure|stop-tests-first")
     rep.ok("R5.11")
     rep.floor("R5.11", 1)
+
+    rep.rule("R5.12", "the strategy sees the true attempt number: the runners pass their loop's attempt number to handle_exception / handle_result, which hand it to _handle_failure unchanged, where it enters the BackoffContext and the `retry` event (= C14 R14.3)")
+    from .c14 import numbering
+
+    numbering(rep, "R5.12", prog)
+    rep.floor("R5.12", 19)
 
     rep.rule("R5.10", "what the captured timeline reports as the delay of a `retry` event is the delay that was applied: its sleep_s is the sleep_s the event was emitted with (= C14 R14.11)")
     from .common import timeline_record
